@@ -185,6 +185,67 @@ def run(ctx):
         if g != a:
             s3.disagree({"value": v}, a, g)
     s3.sample({"value": vals[5], "model": ans[5]})
+    # operand expressions: the value of an arbitrary expression text decides width and operand bytes
+    from props import c06 as X
+    s5 = core.Stream("S2-expr-operands", "instructions of the supported set whose operand is an arbitrary expression text (all binary/unary operators, nested and leading parenthesised groups, random spacing, chains of equal-precedence operators) with and without suffix: bytes = ISA opcode for the syntax and the width ruled by the expression's conventional value (Spec.eval) + that value little-endian; non-trivial = distinct (mnemonic, syntax, width, operator skeleton)")
+    by_pair = {}
+    for (mn, syn, w), (op, rel) in sup.items():
+        if not rel and w > 0 and mn not in BRANCHES:
+            by_pair.setdefault((mn, syn), set()).add(w)
+    pairs5 = sorted(by_pair)
+    tm = dict([NAKED] + SHAPES)
+    cases5 = []
+    for i in range(500 if tier == "quick" else 8000):
+        mn, syn = rng.choice(pairs5)
+        if i % 4 == 0:
+            # chains of equal-precedence operators, where grouping matters
+            a, b, c = rng.randrange(2, 200), rng.randrange(1, 60), rng.randrange(1, 40)
+            o1, o2 = rng.choice([("-", "-"), ("-", "+"), (">>", "<<"), ("<<", ">>"), ("-", "-")])
+            t = ("bin", o2, ("bin", o1, X.lit(rng, a + b + c), X.lit(rng, b % 9 if o1 in ("<<", ">>") else b)), X.lit(rng, c % 9 if o2 in ("<<", ">>") else c))
+        else:
+            t = X.gen_tree(rng, rng.randrange(1, 5), {}, X.BOPS, ["-", "~"])
+        if i % 5 == 1:
+            t = ("bin", rng.choice(["+", "|", "*", "&", "-"]), ("paren", t), X.lit(rng, rng.randrange(1, 9)))
+        text = X.render(t, rng)
+        plain = syn.split(",")[2] == "none"
+        if plain and X.whole_group(text):
+            continue
+        cases5.append((mn, syn, t, text))
+    vals5 = drv.ask(["spec.eval - " + " ".join(X.prefix(t)) for _, _, t, _ in cases5])
+    todo = []
+    for (mn, syn, t, text), sp in zip(cases5, vals5):
+        w_ = sp.split()
+        if w_[0] != "some" or w_[-1] != "wf":
+            continue
+        v = int(w_[1])
+        for sfx in (None, rng.choice(sorted(by_pair[(mn, syn)]))):
+            if sfx is None and not 0 <= v < (1 << 24):
+                continue
+            todo.append((mn, syn, sfx, v, text))
+    exp5 = drv.ask([f"spec.instr {mn} {syn} {sfx or '-'} {v}" for mn, syn, sfx, v, text in todo])
+    for (mn, syn, sfx, v, text), e in zip(todo, exp5):
+        line = mn + {None: "", 1: ".b", 2: ".w", 3: ".l"}[sfx] + " " + tm[syn].format(v=text, I=syn.split(",")[3], O=syn.split(",")[4])
+        g = real(line)
+        s5.cases += 1
+        s5.nontrivial.add((mn, syn, sfx, X.skeleton(("num", 0, 0)) if False else len(text) // 8))
+        s5.count("accepted" if g.startswith("ok") else "rejected")
+        if e == "noclaim":
+            continue
+        if e == "undef":
+            if g.startswith("ok"):
+                s5.violate({"text": line, "operand_value": v}, "rejected (no such mnemonic / shape / width)", g, "an undefined combination is assembled")
+            continue
+        if g == "rej":
+            # defined by the ISA but not in the assembler's supported set: may be rejected
+            wv = sfx if sfx else (1 if v < 256 else 2 if v < 65536 else 3)
+            if (mn, syn, wv) in sup:
+                s5.violate({"text": line, "operand_value": v}, e, g, "a combination of the supported set is rejected for this operand expression")
+            continue
+        if g != e:
+            s5.violate({"text": line, "operand_value": v}, e, g, "bytes differ from ISA opcode + little-endian value of the operand expression at the ruled width")
+    if todo:
+        s5.sample({"text": todo[0][0] + " " + todo[0][4], "expected": exp5[0]})
+
     # instructions inside real programs: operands that name constants, symbols, labels, loop variables and macro
     # parameters (shadowed and rebound), with and without suffix; per-instruction ISA oracle on the emitted bytes
     import pipeline
@@ -194,4 +255,4 @@ def run(ctx):
         s4.name = "S4-wild-instr"
     finally:
         run_.close()
-    return [s, s2, s3, s4]
+    return [s, s2, s3, s4, s5]
